@@ -118,6 +118,7 @@ class Ctx:
         self.notes = []
         self.depth = 0
         self.track_reads = False
+        self._ncount = {}
 
     # -- symbolic constants ------------------------------------------------
     def fresh_name(self, base):
@@ -214,8 +215,14 @@ class Ctx:
         return [c for c in self.cwrites[getattr(self, "pre_cmark", 0):] if c in self.pre_containers]
 
     def count(self, node):
-        n = type(node).__name__
-        self.stats["nodes"][n] = self.stats["nodes"].get(n, 0) + 1
+        d = self._ncount
+        t = node.__class__
+        d[t] = d.get(t, 0) + 1
+
+    def finalize_stats(self):
+        for t, n in self._ncount.items():
+            self.stats["nodes"][t.__name__] = self.stats["nodes"].get(t.__name__, 0) + n
+        self._ncount = {}
 
 
 def is_concrete(v, depth=0):
@@ -1836,5 +1843,6 @@ def explore(loader, setup, run, contracts=None, target=None, max_paths=4096, con
             ex.undecided.append((list(ctx.decisions), str(u)))
         except (_Return, _Break, _Continue) as e:
             ex.undecided.append((list(ctx.decisions), f"stray control flow {type(e).__name__}"))
+        ctx.finalize_stats()
         work.extend(ctx.alternatives)
     return ex
